@@ -53,10 +53,18 @@ def run_real(spec, params, hashes=None, chashes=None):
     project = build(spec, hashes=hashes, chashes=chashes)
     ix = Index(project)
     model = extract_model(project, ix)
+    exc = None
+    wu = params.get("warmup")
+    if wu:   # a used object: an earlier (unobserved) run with other parameters
+        try:
+            real_simulate(project, wu, None, backward=bool(wu.get("backward")))
+        except Exception as e:
+            exc = e
     pre = snapshot(project, ix)
     rec = Recorder(ix)
-    exc = None
     try:
+        if exc is not None:
+            raise exc
         real_simulate(project, params, rec)
     except Exception as e:  # the model has no exceptions: this is a disagreement
         exc = e
